@@ -301,6 +301,10 @@ func NewHTTPTargeter(src io.Reader, body []byte, hdr http.Header) Targeter {
 		}
 		tgt.URL = tokens[1]
 		line = strings.TrimSpace(sc.Peek())
+		for strings.HasPrefix(line, "#") {
+			// Comments are ignored here too, or they would hide the next request line.
+			line = strings.TrimSpace(sc.Peek())
+		}
 		if line == "" || startsWithHTTPMethod(line) {
 			return nil
 		}
